@@ -79,6 +79,66 @@ def _moveaxis_placement(ctx, ck, move, fn) -> None:
                   f'MoveAxisOperator does not move the axes like numpy.moveaxis for {len(wrong)} of {n} requests, e.g. {wrong[0] if wrong else ""}', instance='moveaxis argument order', semantic=True)
 
 
+def _moveaxis_transpose(ctx, ck, move, fn, why_structural) -> None:
+    """A3 when transpose() is not literally MoveAxisOperator(destination, source, in_structure=self.out_structure()): decided by
+    evaluation for all order types of (source, destination) on leaves of rank 1-3 - the transpose is a MoveAxisOperator built
+    on the output structure of the operator, and applying it after the operator puts every axis back."""
+    import itertools
+
+    from ..axinterp import AxArr, Interp, Obj, Raised, StructLeaf, Undecided, UNK, as_structure
+    from ..classes import CORE
+
+    world, table = ctx.world, ctx.table
+    base = table.get(f'{CORE}.AbstractLinearOperator')
+    out_fn = base.own.get('out_structure')
+    sizes = (3, 5, 7)
+    wrong: list[str] = []
+    undecided: list[str] = []
+    n = 0
+    for m in (1, 2, 3):
+        leaf = StructLeaf(tuple((frozenset({f'x{j}'}), sizes[j]) for j in range(m)))
+        raw = list(range(-m, m))
+        for k in range(1, m + 1):
+            tuples = [t for t in itertools.permutations(raw, k) if len({a % m for a in t}) == k]
+            for src in tuples:
+                for dst in tuples:
+                    n += 1
+                    it = Interp(world, table, budget=30_000)
+                    it.constructible = {move.qual}
+                    if isinstance(out_fn, ast.FunctionDef):
+                        it.summaries[id(out_fn)] = lambda args, kwargs, it=it: as_structure(it.call_method(args[0], 'mv', it.call_method(args[0], 'in_structure')))
+                    what = f'MoveAxisOperator({src}, {dst}) on a leaf of rank {m}'
+                    try:
+                        op = it.construct(move, src, dst, in_structure=leaf)
+                        moved = it.call_method(op, 'mv', leaf)
+                        tr = it.call_method(op, 'transpose')
+                        if not isinstance(tr, Obj) or not isinstance(moved, AxArr):
+                            raise Undecided('the transpose is not an operator the evaluator can follow')
+                        tin = it.call_method(tr, 'in_structure')
+                        back = it.call_method(tr, 'mv', moved)
+                    except Raised as exc:
+                        wrong.append(f'{what}: building or applying the transpose raises {exc.name}')
+                        continue
+                    except Undecided as exc:
+                        undecided.append(f'{what}: {exc}')
+                        continue
+                    if it.degraded or not isinstance(back, AxArr) or not isinstance(tin, AxArr):
+                        undecided.append(f'{what}: {(it.degraded or ["the result cannot be followed"])[0]}')
+                        continue
+                    if tin.shape != moved.shape:
+                        wrong.append(f'{what}: the transpose expects {tin.shape} but the operator returns {moved.shape} (its structures are not swapped)')
+                    elif back.axes != leaf.axes:
+                        wrong.append(f'{what}: the transpose applied after the operator gives {back!r}, not the input {leaf!r}')
+            if len(undecided) > 3:
+                break
+    target = fn or move.node
+    if undecided:
+        ck.incomplete('A3', target, f'MoveAxisOperator.transpose ({why_structural}) could not be followed for {len(undecided)} of {n} requests, e.g. {undecided[0]}', instance='moveaxis transpose')
+    else:
+        ck.expect('A3', not wrong, target, f'for all {n} order types of (source, destination) on leaves of rank 1-3 the transpose is built on the output structure and undoes the move',
+                  f'{wrong[0] if wrong else ""} ({len(wrong)} of {n} requests)', instance='moveaxis transpose', semantic=True)
+
+
 def _ravel_by_evaluation(ctx, ck, ravel) -> bool:
     """A1/A2/reduce for RavelOperator, decided by following the axes (sa/axinterp.py) for every pair (first, last) in -4..3 on
     leaves of rank 1-4 and on a pytree of two leaves of different ranks: a legal pair merges exactly the axes first..last of
@@ -407,7 +467,10 @@ def _run(ctx, ck) -> bool:
     # ------------------------------------------------------------------ A3 transposes / inverse
     fn = move.own.get('transpose')
     ok, why = c03.SCHEMAS['MoveAxisOperator'](table, move, fn) if isinstance(fn, ast.FunctionDef) else (False, 'vanished')
-    ck.expect('A3', ok, fn or move.node, why, f'MoveAxisOperator.transpose: {why}', instance='moveaxis transpose')
+    if ok:
+        ck.ok('A3', fn or move.node, why, instance='moveaxis transpose')
+    else:
+        _moveaxis_transpose(ctx, ck, move, fn, why)
     r = table.resolve(move, 'inverse')
     ok, why = c06.s_moveaxis(ctx, table, move, r) if r is not None else (False, 'inverse does not resolve')
     ck.expect('A3', ok, move.node, why, f'MoveAxisOperator.inverse: {why}', instance='moveaxis inverse')
